@@ -47,6 +47,12 @@ def sameGate (g h : Gate) : Bool :=
   let nm := fun (s : String) => if s == "CNOT" then "CX" else s
   nm g.name == nm h.name && g.target == h.target && g.control == h.control && g.param == h.param
 
+/-- gate lists equal gate by gate in that sense -/
+def sameGates : List Gate → List Gate → Bool
+  | [], [] => true
+  | g :: gs, h :: hs => sameGate g h && sameGates gs hs
+  | _, _ => false
+
 /-! ## ProjectQ command text, tokenised -/
 structure PqLine where
   name : String
@@ -83,6 +89,54 @@ def pqRead (l : PqLine) : Option Gate :=
     | some nm, [c, t] => some ⟨nm, [t], some [c], .none, false⟩
     | _, _ => none
   else none
+
+/-! ## whole circuits: the register width travels with the gates -/
+
+def mapOpt {α β : Type} (f : α → Option β) : List α → Option (List β)
+  | [] => some []
+  | a :: as => match f a, mapOpt f as with
+    | some b, some bs => some (b :: bs)
+    | _, _ => none
+
+/-- `{"qubits": width, "circuit": [...]}` -/
+structure IonqCirc where
+  qubits : Nat
+  circuit : List IonqRec
+deriving DecidableEq, Repr, Inhabited
+
+/-- `translate_c_to_json_ionq`: one unsupported gate refuses the whole circuit -/
+def ionqWriteCirc (c : Circuit) : Option IonqCirc := (mapOpt ionqWrite c.gates).map (fun rs => ⟨c.width, rs⟩)
+
+/-- `translate_c_from_json_ionq`: `Circuit(n_qubits=j["qubits"]) + Circuit(gates)` -/
+def ionqReadCirc (j : IonqCirc) : Except Err Circuit :=
+  match mapOpt ionqRead j.circuit with
+  | none => .error .value
+  | some gs => match Circuit.ofGates gs none with
+    | .error e => .error e
+    | .ok d => (Circuit.empty (some j.qubits)).add d
+
+/-- ProjectQ program: the `Allocate | Qureg[i]` lines (their indices, in order) and the command lines -/
+structure PqProg where
+  allocs : List Nat
+  lines : List PqLine
+deriving DecidableEq, Repr, Inhabited
+
+/-- `translate_c_to_projectq` -/
+def pqWriteCirc (c : Circuit) : Option PqProg := (mapOpt pqWrite c.gates).map (fun ls => ⟨List.range c.width, ls⟩)
+
+def maxIdx : List Nat → Option Nat
+  | [] => none
+  | a :: as => match maxIdx as with
+    | none => some a
+    | some m => some (max a m)
+
+/-- `translate_c_from_projectq`: `Measure` lines are dropped, the register is `max(allocated) + 1` (none if nothing
+    is allocated), then the gates are added one by one -/
+def pqReadCirc (p : PqProg) : Except Err Circuit :=
+  let n := (maxIdx p.allocs).map (· + 1)
+  match mapOpt pqRead (p.lines.filter (fun l => l.name != "Measure")) with
+  | none => .error .value
+  | some gs => Circuit.ofGates gs n
 
 /-- the gates of the supported set a format can express, with the shapes it can express them in -/
 def ionqExpressible (g : Gate) : Bool :=
